@@ -388,7 +388,7 @@ def _draw_case(rng, Fs):
     noise_db = -float(rng.choice([40, 40, 40, 45, 50, 60]))
     steering, owner, source, noise, akind = pu.make_scene(rng, K, D, F, T, noise_db)
     # absolute level of the recording (the property does not restrict it): sources and sensor noise scaled together
-    level = 1.0 if rng.random() < 0.4 else float(10 ** rng.uniform(-3, 3))
+    level = 1.0 if rng.random() < 0.4 else float(10 ** rng.uniform(-6, 3))
     source, noise = source * level, noise * level
     dhtv, pkind = pu.dhtv_cfg(rng, F)
     plan = _ref_plan(dhtv, F)
